@@ -451,7 +451,8 @@ theorem lowRecvB_ptrAssignEmb (st : St) (tid d c v : Nat) (ht : tid < nThreads) 
     into an embedded slot without holding the only handle: a single-threaded-only call, see the OPEN note) -/
 def idxOkN : NOp → Prop
   | .flat op => idxOk op ∧ ∀ d s, op ≠ .pLink d s
-  | .vPushV d s | .xAddC d s | .vGetV d s _ | .xGetC d s _ | .aPushV d s | .aGetV d s _ => d < nVars ∧ s < nVars
+  | .vPushV d s | .xAddC d s | .vGetV d s _ | .xGetC d s _ | .aPushV d s | .aGetV d s _ | .vSetS d s | .sFromV d s => d < nVars ∧ s < nVars
+  | .vAppS d _ => d < nVars
 
 theorem lowRecv_lists (tid : Nat) (op : NOp) (ht : tid < nThreads) (hi : idxOkN op) :
     (∀ st, LowRecv (preN st tid op)) ∧ (∀ s1, LowRecv (postN s1 tid op)) := by
@@ -468,6 +469,18 @@ theorem lowRecv_lists (tid : Nat) (op : NOp) (ht : tid < nThreads) (hi : idxOkN 
     simp only [preN]; split <;> simp [lowRecvB_cons, lowRecvB_nil, recv, lowV hi.1]
   | aGetV d s k => exact ⟨fun st => lowRecv_of_B (lowRecvB_getEmb _ _ _ _ _ _ _ ht hi.1), fun s1 => lowRecv_of_B rfl⟩
   | xGetC d s k => exact ⟨fun st => lowRecv_of_B (lowRecvB_getEmb _ _ _ _ _ _ _ ht hi.1), fun s1 => lowRecv_of_B rfl⟩
+  | sFromV d s =>
+    refine ⟨fun st => lowRecv_of_B ?_, fun s1 => lowRecv_of_B rfl⟩
+    simp only [preN]
+    (repeat' split) <;> simp [shareAssign, rel, lowRecvB_append, lowRecvB_cons, lowRecvB_nil, recv, lowU ht, lowT ht, lowV hi.1]
+  | vSetS d s =>
+    refine ⟨fun st => lowRecv_of_B (by simp [preN, lowRecvB_cons, lowRecvB_nil, recv]), fun s1 => lowRecv_of_B ?_⟩
+    simp only [postN, innerAssign, innerFromVar]
+    (repeat' split) <;> simp [lowRecvB_append, lowRecvB_cons, lowRecvB_nil, recv, lowU ht, lowT ht, lowV hi.1]
+  | vAppS d bytes =>
+    refine ⟨fun st => lowRecv_of_B (by simp [preN, lowRecvB_cons, lowRecvB_nil, recv]), fun s1 => lowRecv_of_B ?_⟩
+    simp only [postN]
+    (repeat' split) <;> simp [lowRecvB_append, lowRecvB_cons, lowRecvB_nil, recv, lowU ht, lowT ht, lowV hi]
   | flat op =>
     obtain ⟨hi, hnl⟩ := hi
     cases hf : flatOp op with
